@@ -102,6 +102,108 @@ def _run_one(v):
         shutil.rmtree(tmp, ignore_errors=True)
 
 
+def _robust_one(args):
+    prop, rel, kind, payload, base = args
+    import ast as _ast
+    sys.path.insert(0, VERIF)
+    from selftest import rename_fuzz, refactor_fuzz
+    tmp = tempfile.mkdtemp(prefix='sa_robust_')
+    try:
+        root = os.path.join(tmp, 'r')
+        shutil.copytree(PRISTINE, root)
+        path = os.path.join(root, rel)
+        tree = _ast.parse(open(path).read())
+        if kind == 'rename':
+            fname, lineno, name = payload
+            for node in _ast.walk(tree):
+                if isinstance(node, (_ast.FunctionDef,
+                                     _ast.AsyncFunctionDef)) and \
+                        node.name == fname and node.lineno == lineno:
+                    rename_fuzz.Renamer(name, name + '_rn').visit(node)
+        else:
+            tree = refactor_fuzz.transform(tree, kind, payload)
+            if tree is None:
+                return None
+        src = _ast.unparse(tree)
+        compile(src, path, 'exec')
+        open(path, 'w').write(src)
+        try:
+            got = _unlisted(prop, root)
+        except Exception as e:
+            got = ['%s: %s' % (type(e).__name__, str(e)[:120])]
+        return {'site': '%s %s %s' % (rel, kind, payload),
+                'unchanged': got == base, 'got': got[:3]}
+    finally:
+        shutil.rmtree(tmp, ignore_errors=True)
+
+
+def robustness_sample(prop, analysed_funcs, seed=0, n=40, jobs=16):
+    """Sampled behaviour-preserving edits (local renames, negated if/else,
+    swapped pure operands, inserted no-op) inside the functions this
+    property's rules analysed; the verdict must not change.  Reported in the
+    evidence; never changes the exit code (it measures the checker, not the
+    code)."""
+    import ast as _ast
+    import random
+    sys.path.insert(0, VERIF)
+    from selftest import rename_fuzz, refactor_fuzz
+    if not os.path.isdir(PRISTINE):
+        return {'variants': 0, 'unchanged': 0}
+    wanted = {}
+    for fq in analysed_funcs:
+        mod, q = fq.split(':', 1)
+        wanted.setdefault(mod, set()).add(q.split('.')[-1])
+    cands = []
+    for mod, names in wanted.items():
+        rel = mod.replace('.', '/') + '.py'
+        if not os.path.exists(os.path.join(PRISTINE, rel)):
+            rel = mod.replace('.', '/') + '/__init__.py'
+        path = os.path.join(PRISTINE, rel)
+        if not os.path.exists(path):
+            continue
+        tree = _ast.parse(open(path).read())
+        inside = set()
+        for node in _ast.walk(tree):
+            if isinstance(node, (_ast.FunctionDef, _ast.AsyncFunctionDef)) \
+                    and node.name in names:
+                for nm in rename_fuzz.locals_of(node):
+                    cands.append((rel, 'rename', (node.name, node.lineno,
+                                                  nm)))
+                inside |= {id(x) for x in _ast.walk(node)}
+        for i, node in enumerate(_ast.walk(tree)):
+            if id(node) not in inside:
+                continue
+            for kind, idx in refactor_fuzz.sites(
+                    _ast.Module(body=[], type_ignores=[]), ()):
+                pass
+        for kind, idx in refactor_fuzz.sites(tree, ('neg-if', 'swap-and',
+                                                    'noop')):
+            node = list(_ast.walk(tree))[idx]
+            if id(node) in inside:
+                cands.append((rel, kind, idx))
+    rnd = random.Random(seed)
+    rnd.shuffle(cands)
+    cands = cands[:n]
+    if not cands:
+        return {'variants': 0, 'unchanged': 0}
+    tmp = tempfile.mkdtemp(prefix='sa_robust_base_')
+    try:
+        root = os.path.join(tmp, 'r')
+        shutil.copytree(PRISTINE, root)
+        base = _unlisted(prop, root)
+    finally:
+        shutil.rmtree(tmp, ignore_errors=True)
+    work = [(prop, rel, kind, payload, base) for rel, kind, payload in cands]
+    with ProcessPoolExecutor(max_workers=min(jobs, len(work))) as ex:
+        res = [r for r in ex.map(_robust_one, work) if r is not None]
+    changed = [r for r in res if not r['unchanged']]
+    return {'variants': len(res),
+            'unchanged': len(res) - len(changed),
+            'kinds': sorted({r['site'].split(' ')[1] for r in res}),
+            'changed': changed[:10], 'seed': seed,
+            'samples': [r['site'] for r in res[:5]]}
+
+
 def run_for_property(prop, jobs=16):
     vs = load_variants(prop)
     if not os.path.isdir(PRISTINE):
